@@ -177,6 +177,10 @@ def lookAhead (b : Buf) : Option Tok := (skipSpace b).head?
 
 def txtIs (t : Tok) (s : String) : Bool := t.txt == s.toList
 
+def isVerb (t : Tok) : Bool := match t.kind with | .verb _ => true | _ => false
+/-- `txt(tok)` of `arg_buffer`: the text of verbatim material never acts as a delimiter -/
+def txtIsNV (t : Tok) (s : String) : Bool := !isVerb t && t.txt == s.toList
+
 def mkAction (pos : Nat) : Tok := { kind := .action, pos := pos, txt := [] }
 def mkVoid (pos : Nat) : Tok := { kind := .void, pos := pos, txt := [] }
 def mkFix (k : Kind) (pos : Nat) (txt : Str) : Tok := { kind := k, pos := pos, txt := txt, fix := true }
@@ -204,9 +208,9 @@ deriving Repr, Inhabited
 def collectArg (endTxt : Str) : Int → Buf → List Tok → Option (List Tok × Buf)
   | _, [], _ => none
   | lev, t :: ts, acc =>
-    let lev1 := if txtIs t "{" then lev + 1 else lev
-    let lev2 := if txtIs t "}" then lev1 - 1 else lev1
-    if t.txt == endTxt && lev2 == 0 then some (acc.reverse, ts)
+    let lev1 := if txtIsNV t "{" then lev + 1 else lev
+    let lev2 := if txtIsNV t "}" then lev1 - 1 else lev1
+    if !isVerb t && t.txt == endTxt && lev2 == 0 then some (acc.reverse, ts)
     else collectArg endTxt lev2 ts (t :: acc)
 
 def errClosing (endTxt : Str) : Str := "cannot find closing \"".toList ++ endTxt ++ ['"']
@@ -217,10 +221,10 @@ def argBufferPure (mark : Str) (buf : Buf) (start : Nat) (endBrace : Bool) : Arg
   | [] => { arg := [mkVoid start], buf := [] }
   | tok :: rest =>
     if tok.kind == .par then { arg := [mkVoid tok.pos], buf := tok :: rest }
-    else if endBrace && !txtIs tok "{" then { arg := [tok], buf := rest }
+    else if endBrace && !txtIsNV tok "{" then { arg := [tok], buf := rest }
     else
       let endTxt : Str := if endBrace then ['}'] else [']']
-      let lev : Int := if txtIs tok "{" then 1 else 0
+      let lev : Int := if txtIsNV tok "{" then 1 else 0
       match collectArg endTxt lev rest [] with
       | some (out, rest') => { arg := if out.isEmpty then [mkVoid tok.pos] else out, buf := rest' }
       | none =>
